@@ -1,5 +1,5 @@
 (* C05 — precise search = exhaustive negamax; verdicts hold on reused engines.
-   Only statements, `exact`, and Print Assumptions live here.  Proofs: Pvs.v, NegamaxSpec.v, SearchGen.v, SearchExact.v, SearchNeg1-5.v;
+   Only statements, `exact`, and Print Assumptions live here.  Proofs: Pvs.v, NegamaxSpec.v, SearchGen.v, SearchExact.v, SearchNeg1-5.v, SearchAll1-4.v;
    model: Search.v.
 
    Full statement of the property (DESIGN 5.5) and what is proved:
@@ -15,8 +15,20 @@
                                    most 64 pieces: C05_within_total64).  The model's loops over the move generator are bounded by the
                                    node's own number of generated moves (Search.gfuel), so no bound on that number is assumed.
                                    The conditional forms over an abstract set of positions keep the suffix _partial.
-     analyze_all_exact             not proved (AnalyzeAll is modelled, Search.analyze_all; its set of first moves is compared with the
-                                   exhaustive oracle and with the implementation on every run).
+     analyze_all_exact             PROVED for the engine model (SearchAll1-4.v), same setting as analyze_precise_exact (precise options,
+                                   no table, any sort setting, any engine state without a table, every board size, games of at most
+                                   64 pieces or `within`, both evaluators): C05_analyze_all_exact_64 (the list itself: Analyze's line
+                                   first, then the heads filter (not Equal to pv[0] and attaining the value) over AllMoves in the
+                                   generator's order - so also the order and the absence of duplicates), C05_analyze_all_sets_64 (the
+                                   set form: every listed first move attains the value, every entry of AllMoves that attains it is
+                                   listed up to Move.Equal, no two listed first moves are Equal), C05_analyze_all_complete_raw (every
+                                   raw move value that attains it is Equal to a listed one).  For a call CANCELLED at point k the
+                                   same holds as long as the flag has not been seen set when AnalyzeAll returns
+                                   (C05_analyze_all_sets_cancel_64); once the flag is set the second pass of AnalyzeAll still runs,
+                                   abandoned child searches return 0, and the listed set can be wrong: C05_analyze_all_cancelled_refuted
+                                   (a cancelled call reports depth 3, value 0 and twelve lines of which two attain the value; the
+                                   real engine does the same).  What holds for every k: the value is exact, the first line is
+                                   Analyze's, every line starts with an accepted entry of AllMoves.
      dedup_value_preserving        not proved and not modelled (DedupSymmetry); judged by the exhaustive oracle only.
      tt_valid_preserved / win_sound_complete (the table clause)   not proved; tested on every run against the forced-result solver on
                                    fresh engines and after histories of calls (repeats, neighbours, cancelled calls, tables of 2 entries up).
@@ -36,7 +48,8 @@
    Pvs.negamax on the game tree of the rules model (tree_of). *)
 From Coq Require Import NArith ZArith List Bool.
 Require Import Board Move GameOver Eval EvalSpec Search NegamaxSpec SearchGen SearchExact SearchEx SearchInst SearchC CancelEx.
-Require Import Preserve1 Reach1 Alloc SearchNeg1 SearchNeg2 SearchNeg3 SearchNeg4 SearchNeg5.
+Require Import Preserve1 Reach1 Alloc SearchNeg1 SearchNeg2 SearchNeg3 SearchNeg4 SearchNeg5 SearchAll1 SearchAll2 SearchAll3 SearchAll4.
+Require AllMovesFacts2.
 Require Import Generated.Consts.
 Require Pvs.
 Import ListNotations.
@@ -234,3 +247,99 @@ Print Assumptions C05_analyze_twice_refuted_pinned.
 Theorem C05_analyze_twice_fixed : exists v1, twice false = (v1, v1) /\ v1 <> 0.
 Proof. exact analyze_twice_fixed. Qed.
 Print Assumptions C05_analyze_twice_fixed.
+
+(* ================= AnalyzeAll: "its all-best-lines analysis lists exactly the first moves that attain it" =================
+   analyze_all_cancel basis cfg k = Search.analyze_all_gen (repaired code) with the context cancelled inside the k-th leaf evaluation
+   (k = 0: never; = Search.analyze_all, the function the check executes against MinimaxAI.AnalyzeAll on every run).
+   all_exact cfg k p sk pvs v d :=  SI sk /\ (d = 0 /\ pvs = []  \/  1 <= d <= 16 /\ d <= c_depth cfg /\ is_over p = false /\
+                                              all_result gen_basis cfg k p sk pvs v d)
+   all_result basis cfg k p sk pvs v d :=
+     v = nmx d p /\ exists pm pvt q0 ms tails,
+       pvs = (pm :: pvt) :: tails /\ okl (pm :: pvt) /\                              (Analyze's line comes first)
+       try_move p pm = Some q0 /\ In q0 (children p) /\ - nmx (d-1) q0 = v /\         (its first move is accepted and attains v)
+       Forall (line_ok p) tails /\                                                   (every further line is m :: rest, m an accepted ENTRY of AllMoves)
+       Permutation ms (all_moves p) /\ ((1 <? d) && negb nosort = false -> ms = all_moves p) /\   (the generator's order)
+       (cancelled k sk = false ->                                                    (the flag was never seen set; always so for k = 0)
+          map hd tails = filter (fun m => negb (move_equal pm m) && best (d-1) p m) ms)
+     best d' p m := m is accepted at p and leads to q with - nmx d' q = nmx (S d') p.
+   Duplicates: none (AllMoves has no two Equal entries, C03; entries Equal to pv[0] are left out).  Order: pv[0], then AllMoves order
+   (NoSort or depth 1) or the history-table order the generator fixed at its second call (a permutation of AllMoves). *)
+Theorem C05_analyze_all_exact_64 : forall cfg, precise cfg -> builtin_eval cfg ->
+  forall k s p sk pvs v d c,
+  SI s -> base_ok p -> (total p <= 64)%N -> move p + 16 <= max_terminal_ply ->
+  analyze_all_cancel gen_basis cfg k s p = (sk, (pvs, v, d, c)) -> all_exact cfg k p sk pvs v d.
+Proof. exact analyze_all_exact_64. Qed.
+Print Assumptions C05_analyze_all_exact_64.
+
+(* any game, under the side condition `within` (the searched tree stays inside C01's 64-piece stack limit) *)
+Theorem C05_analyze_all_exact_within : forall cfg, precise cfg -> builtin_eval cfg ->
+  forall k s p sk pvs v d c,
+  SI s -> base_ok p -> within (dmax cfg) p -> move p + 16 <= max_terminal_ply ->
+  analyze_all_cancel gen_basis cfg k s p = (sk, (pvs, v, d, c)) -> all_exact cfg k p sk pvs v d.
+Proof. exact analyze_all_exact_within. Qed.
+Print Assumptions C05_analyze_all_exact_within.
+
+(* The same as a statement about SETS of first moves, for the never-cancelled call (Search.analyze_all):
+   attains basis cfg p d v m := exists q, mvp basis p m = Ok q /\ - nmx basis (c_eval cfg) (d-1) q = v
+   head_accepted basis p l   := exists m rest q, l = m :: rest /\ okm m /\ mvp basis p m = Ok q.
+   Every line is non-empty and starts with an accepted move; a first move is listed only if it attains the value; every entry of
+   AllMoves that attains the value is listed up to Move.Equal; no two listed first moves are Equal (they have different Equal-keys). *)
+Theorem C05_analyze_all_sets_64 : forall cfg, precise cfg -> builtin_eval cfg ->
+  forall s p sk pvs v d c,
+  SI s -> base_ok p -> (total p <= 64)%N -> move p + 16 <= max_terminal_ply ->
+  analyze_all gen_basis cfg s p = (sk, (pvs, v, d, c)) -> 0 < d ->
+  SI sk /\ v = nmx gen_basis (c_eval cfg) (Z.to_nat d) p /\
+  Forall (head_accepted gen_basis p) pvs /\
+  (forall l, In l pvs -> attains gen_basis cfg p d v (hd move0 l)) /\
+  (forall m, In m (all_moves p) -> attains gen_basis cfg p d v m -> exists l, In l pvs /\ move_equal (hd move0 l) m = true) /\
+  NoDup (map AllMovesFacts2.key (map (hd move0) pvs)).
+Proof. exact analyze_all_sets_64. Qed.
+Print Assumptions C05_analyze_all_sets_64.
+
+(* completeness for EVERY raw move value, not only the entries of AllMoves (C03: an accepted move is Equal to an entry) *)
+Theorem C05_analyze_all_complete_raw : forall cfg, precise cfg -> builtin_eval cfg ->
+  forall s p sk pvs v d c,
+  SI s -> base_ok p -> (total p <= 64)%N -> move p + 16 <= max_terminal_ply ->
+  analyze_all gen_basis cfg s p = (sk, (pvs, v, d, c)) -> 0 < d ->
+  forall m, attains gen_basis cfg p d v m -> exists l, In l pvs /\ move_equal (hd move0 l) m = true.
+Proof. exact analyze_all_complete_raw_64. Qed.
+Print Assumptions C05_analyze_all_complete_raw.
+
+(* a call cancelled at any point k: what holds always, and the exact set as long as the flag was not seen set at the end *)
+Theorem C05_analyze_all_sets_cancel_64 : forall cfg, precise cfg -> builtin_eval cfg ->
+  forall k s p sk pvs v d c,
+  SI s -> base_ok p -> (total p <= 64)%N -> move p + 16 <= max_terminal_ply ->
+  analyze_all_cancel gen_basis cfg k s p = (sk, (pvs, v, d, c)) -> 0 < d ->
+  SI sk /\ v = nmx gen_basis (c_eval cfg) (Z.to_nat d) p /\ pvs <> [] /\
+  Forall (head_accepted gen_basis p) pvs /\ attains gen_basis cfg p d v (hd move0 (hd [] pvs)) /\
+  (cancelled k sk = false ->
+    (forall l, In l pvs -> attains gen_basis cfg p d v (hd move0 l)) /\
+    (forall m, In m (all_moves p) -> attains gen_basis cfg p d v m -> exists l, In l pvs /\ move_equal (hd move0 l) m = true) /\
+    NoDup (map AllMovesFacts2.key (map (hd move0) pvs))).
+Proof. exact analyze_all_sets_cancel_64. Qed.
+Print Assumptions C05_analyze_all_sets_cancel_64.
+
+(* Non-vacuity (vm_compute): q4 = 3x3 after a1 c3 b2 b1, EvaluateWinner, depth 3, sorted: the hypotheses hold; three lines - Sc1, c1, b2- -
+   value 0; the specification (negamax over the 16 entries of AllMoves) names the same three *)
+Theorem C05_example_all_three :
+  precise cfg3w /\ builtin_eval cfg3w /\ SI (new_state 0) /\ base_ok q4 /\ (total q4 <= 64)%N /\ move q4 + 16 <= max_terminal_ply /\
+  heads (analyze_all gen_basis cfg3w (new_state 0) q4) = ([Sc1; c1; b2dn], 0, 3, false) /\
+  spec_best cfg3w q4 3 0 = [b2dn; c1; Sc1] /\ length (all_moves q4) = 16%nat.
+Proof. exact ex_all_three. Qed.
+Print Assumptions C05_example_all_three.
+
+(* FINDING (model and real engine agree): when the context is cancelled, AnalyzeAll still runs its second pass with the flag set; a child
+   search that is abandoned returns 0, which is taken for the child's value.  p5 = 3x3 after a1 c3 b2 b1 c1 (Black to move), MakePrecise,
+   NoSort, EvaluateWinner, Depth 4, no table, fresh engine, cancelled inside the 400th leaf evaluation: reported depth 3, value 0
+   (= negamax), TWELVE lines, among them a2 whose value is -WinBase; only two entries of AllMoves attain 0, and the uninterrupted
+   depth-3 call lists two.
+   cancelled_obs = (number of lines, value, depth, Stats.Canceled, flag seen at the end, a2 is among the first moves) of that call;
+   uninterrupted_obs = (number of lines, value, depth, Stats.Canceled) of the uninterrupted Depth-3 call on a fresh engine. *)
+Theorem C05_analyze_all_cancelled_refuted :
+  cancelled_obs = (12%nat, 0, 3, true, true, true) /\
+  (match mvp gen_basis p5 a2 with Ok q => - nmx gen_basis evaluate_winner 2 q | _ => 0 end) = - Eval.WinBase /\
+  nmx gen_basis evaluate_winner 3 p5 = 0 /\
+  length (spec_best cfg4wn p5 3 0) = 2%nat /\
+  uninterrupted_obs = (2%nat, 0, 3, false).
+Proof. exact cancelled_lists_losing_moves. Qed.
+Print Assumptions C05_analyze_all_cancelled_refuted.
